@@ -280,8 +280,10 @@ def _read(sock, n, kind, fobj=None):
         if sock.timeout is not None:
             S.event('read-timeout', c.id, S.me().id)
             raise TimeoutError('timed out')
-        S.block_until(lambda: c.readable()
-                      or (fobj is not None and fobj.closed), 'read')
+        # Closing the file (or the socket) does NOT wake a reader that is
+        # already blocked in recv (Linux): only data, the peer's end of
+        # stream, or a local shutdown(SHUT_RD/RDWR) does.
+        S.block_until(lambda: c.readable(), 'read')
         if fobj is not None and fobj.closed:
             raise ValueError('I/O operation on closed file.')
     if c.rd_shutdown and not c.s2c:
